@@ -62,6 +62,12 @@ int tmcg_mpz_qrmn_p
 void tmcg_mpz_sqrtmp_r
 	(mpz_ptr root, mpz_srcptr a, mpz_srcptr p)
 {
+	/* p = 2: every residue is its own square root */
+	if (!mpz_cmp_ui(p, 2UL))
+	{
+		mpz_set_ui(root, mpz_odd_p(a) ? 1UL : 0UL);
+		return;
+	}
 	/* ? a \neq 0 */
 	if (mpz_cmp_ui(a, 0UL))
 	{
@@ -184,6 +190,12 @@ void tmcg_mpz_sqrtmp_r
 void tmcg_mpz_sqrtmp
 	(mpz_ptr root, mpz_srcptr a, mpz_srcptr p)
 {
+	/* p = 2: every residue is its own square root */
+	if (!mpz_cmp_ui(p, 2UL))
+	{
+		mpz_set_ui(root, mpz_odd_p(a) ? 1UL : 0UL);
+		return;
+	}
 	/* ? a \neq 0 */
 	if (mpz_cmp_ui(a, 0UL))
 	{
@@ -307,6 +319,12 @@ void tmcg_mpz_sqrtmp_fast
 	mpz_srcptr pa1d4, mpz_srcptr ps1d4, mpz_srcptr pa3d8,
 	mpz_srcptr nqr_ps1d4)
 {
+	/* p = 2: every residue is its own square root */
+	if (!mpz_cmp_ui(p, 2UL))
+	{
+		mpz_set_ui(root, mpz_odd_p(a) ? 1UL : 0UL);
+		return;
+	}
 	/* ? a \neq 0 */
 	if (mpz_cmp_ui(a, 0UL))
 	{
